@@ -335,6 +335,19 @@ impl DatacakeNode {
         self.node.statistics()
     }
 
+    #[cfg(datacake_verif)]
+    /// Verification hook: publish a membership snapshot as if chitchat had produced it.
+    pub fn verif_set_members(&self, members: Vec<ClusterMember>) {
+        self.node
+            .verif_set_members(members.into_iter().map(|m| (m.node_id, m)).collect());
+    }
+
+    #[cfg(datacake_verif)]
+    /// Verification hook: removes a registered RPC service by name.
+    pub fn verif_remove_rpc_service(&self, name: &str) {
+        self.rpc_server.remove_service(name);
+    }
+
     #[inline]
     /// Get access to the cluster clock.
     pub fn clock(&self) -> &Clock {
